@@ -44,7 +44,7 @@ UNKNOWN = object()
 _SIMPLE_STR = re.compile(r"""^(?:'[^'\\\n]*'|"[^"\\\n]*")+$""")
 _STR_PART = re.compile(r"""'([^'\\\n]*)'|"([^"\\\n]*)\"""")
 _INT = re.compile(r'^[+-]?(?:0|[1-9][0-9]*)$')
-_FLOAT = re.compile(r'^[+-]?[0-9]+\.[0-9]+$')
+_FLOAT = re.compile(r'^[+-]?[0-9]+\.[0-9]+$')   # str(float) == repr(float)
 _IDENT = re.compile(r'^[^\W\d]\w*(?:\.\w+)*$', re.UNICODE)
 
 LITERAL_TABLE = {
